@@ -26,7 +26,7 @@ for p in props:
         na.append({"property_id": pid, "reason": claims.get(pid, {}).get("na", "check under construction in this session: model and theorems for this property are not committed yet (not a statement that the technique cannot apply)")})
 m = {
     "version": 1,
-    "setup_cmd": "cd /verif && tools/lock_check.sh && cd /verif/lean && lake build mdrv " + " ".join(sorted({"Melda." + m for k, v in deps.items() if not k.startswith("_") for m in v.get("lean", [])})) + " && cd /verif/harness && (test -f Cargo.lock || cp /repo/Cargo.lock .) && CARGO_NET_OFFLINE=true cargo build",
+    "setup_cmd": "cd /verif && tools/lock_check.sh && cd /verif/lean && lake build mdrv " + " ".join(sorted({"Melda." + m for k, v in deps.items() if not k.startswith("_") for m in v.get("lean", [])} | {"Melda." + m for m in deps.get("_extra_build", [])})) + " && cd /verif/harness && (test -f Cargo.lock || cp /repo/Cargo.lock .) && CARGO_NET_OFFLINE=true cargo build",
     "hooks": {
         "guard": "--cfg melda_verif",
         "enable": "RUSTFLAGS='--cfg melda_verif' via /verif/harness/.cargo/config.toml (the harness crate depends on /repo by path and is rebuilt by every check)",
